@@ -36,7 +36,7 @@ Check(ev) ==
                IF sp # {} THEN PrintT(<<"REJECT", "C13", ev.id, CHOOSE p \in sp : TRUE, ToJson(sp)>>)
                ELSE LET bad == Bad(ev) IN
                     IF bad # {} THEN PrintT(<<"REJECT", "C13", ev.id, "correspondence", ToJson(CHOOSE y \in bad : TRUE)>>)
-                    ELSE LET xp == ExactProblems(ev) IN
+                    ELSE LET xp == IF KY(ev) <= ExactMax THEN ExactProblems(ev) ELSE {} IN
                     IF xp # {} THEN PrintT(<<"REJECT", "C13", ev.id, CHOOSE p \in xp : TRUE, ToJson(xp)>>)
                     ELSE PrintT(<<"STAT", ev.id, "ok", Cardinality(YEnvs(ImgSeq(ev), 1)),
                                   Cardinality({y \in YEnvs(ImgSeq(ev), 1) : OrigFeasible(ev, y)})>>)
